@@ -87,8 +87,14 @@ def _order_component_mapping(
     mapping: Mapping[str, sp.Expr],
 ) -> OrderedDict[str, sp.Expr]:
     return collections.OrderedDict([
-        (key, mapping[key]) for key in sorted(mapping, key=natural_sorting)
+        (key, mapping[key]) for key in sorted(mapping, key=_natural_sort_key)
     ])
+
+
+def _natural_sort_key(text: str) -> tuple[list[float | str], str]:
+    # natural_sorting() alone is not a total order: "m_01" and "m_1" get the same key, so
+    # that the order would depend on the (hash seed dependent) order of the input
+    return natural_sorting(text), text
 
 
 def _order_symbol_mapping(
@@ -96,7 +102,7 @@ def _order_symbol_mapping(
 ) -> OrderedDict[sp.Symbol, sp.Expr]:
     return collections.OrderedDict([
         (symbol, mapping[symbol])
-        for symbol in sorted(mapping, key=lambda s: natural_sorting(s.name))
+        for symbol in sorted(mapping, key=lambda s: _natural_sort_key(s.name))
     ])
 
 
@@ -105,7 +111,7 @@ def _order_amplitudes(
 ) -> OrderedDict[sp.Indexed, sp.Expr]:
     return collections.OrderedDict([
         (key, mapping[key])
-        for key in sorted(mapping, key=lambda a: natural_sorting(str(a)))
+        for key in sorted(mapping, key=lambda a: _natural_sort_key(str(a)))
     ])
 
 
